@@ -341,6 +341,26 @@ class Positionalise(ast.NodeTransformer):
         return n
 
 
+class InsertNoop(ast.NodeTransformer):
+    calls = False
+
+    """a no-effect expression statement (a stray string constant — stands for a log call / comment) after the docstring of
+    every function and at the start of every other block: rules must not depend on statement positions"""
+    def generic_visit(self, n):
+        super().generic_visit(n)
+        for fld in ("body", "orelse", "finalbody"):
+            b = getattr(n, fld, None)
+            if isinstance(b, list) and b and isinstance(b[0], ast.stmt) and not isinstance(n, (ast.ClassDef, ast.Module)):
+                k = 1 if (fld == "body" and isinstance(n, (ast.FunctionDef, ast.AsyncFunctionDef)) and isinstance(b[0], ast.Expr)
+                          and isinstance(b[0].value, ast.Constant) and isinstance(b[0].value.value, str)) else 0
+                if len(b) > k and isinstance(b[k], (ast.Nonlocal, ast.Global)):
+                    while k < len(b) and isinstance(b[k], (ast.Nonlocal, ast.Global)):
+                        k += 1
+                b.insert(k, ast.Expr(ast.Call(func=ast.Name("print", ast.Load()), args=[ast.Constant("note")], keywords=[])) if self.calls
+                         else ast.Expr(ast.Constant("note")))
+        return n
+
+
 class AddDocstrings(ast.NodeTransformer):
     """every function without a docstring gets one (maintainers document code; rules must not count a docstring as a statement)"""
     def visit_FunctionDef(self, n):
@@ -415,6 +435,10 @@ def transform(root, kind):
                 tree = Kwify().visit(tree)
             elif kind == "positionalise":
                 tree = Positionalise().visit(tree)
+            elif kind in ("noop", "logcall"):
+                t_ = InsertNoop()
+                t_.calls = kind == "logcall"
+                tree = t_.visit(tree)
             elif kind == "docstring":
                 tree = AddDocstrings().visit(tree)
             elif kind == "annotate":
@@ -452,7 +476,7 @@ def transform(root, kind):
 def main():
     kinds = [a for a in sys.argv[1:] if not a.startswith("--")] or ["all"]
     if kinds == ["all"]:
-        kinds = ["unparse", "flipcmp", "invertif", "rename", "rename2", "rename3", "extractcond", "cellify", "earlyreturn", "attrrename", "docstring", "annotate", "ternary2if", "if2ternary", "aug2plain", "plain2aug", "kwify", "positionalise"]
+        kinds = ["unparse", "flipcmp", "invertif", "rename", "rename2", "rename3", "extractcond", "cellify", "earlyreturn", "attrrename", "docstring", "annotate", "ternary2if", "if2ternary", "aug2plain", "plain2aug", "kwify", "positionalise", "noop", "logcall"]
     bad = 0
     for kind in kinds:
         tmp = tempfile.mkdtemp(prefix="rxsa_rf_")
